@@ -232,11 +232,14 @@ class FindModel(Model):
         return Model.ev(self, dict(n, args=args), env)
 
     def index(self, base, idx):
+        if isinstance(idx, tuple) and len(idx) == 3 and idx[0] == "rec" and idx[1].startswith("Range"):
+            d_ = dict(idx[2])  # a range written as a struct literal: the same as the constructor form
+            idx = ("ctor", idx[1], idx[1], [d_[k_] for k_ in ("start", "end") if k_ in d_])
         if isinstance(base, str) or (isinstance(base, tuple) and base and base[0] == "lit"):
             b = _s(base).encode()
             if isinstance(idx, tuple) and idx and idx[0] == "range" and isinstance(idx[1], int) and isinstance(idx[2], int) and 0 <= idx[1] <= idx[2] <= len(b):
                 return b[idx[1]:idx[2]].decode()
-            if isinstance(idx, tuple) and idx and idx[0] == "ctor" and idx[1] in ("RangeTo", "RangeFrom", "RangeFull", "RangeInclusive", "RangeToInclusive"):
+            if isinstance(idx, tuple) and idx and idx[0] == "ctor" and idx[1] in ("Range", "RangeTo", "RangeFrom", "RangeFull", "RangeInclusive", "RangeToInclusive"):
                 vals = idx[3]
                 if idx[1] == "RangeTo" and isinstance(vals[0], int) and 0 <= vals[0] <= len(b):
                     return b[:vals[0]].decode()
@@ -244,6 +247,8 @@ class FindModel(Model):
                     return b[vals[0]:].decode()
                 if idx[1] == "RangeFull":
                     return b.decode()
+                if idx[1] == "Range" and len(vals) == 2 and all(isinstance(v_, int) for v_ in vals) and 0 <= vals[0] <= vals[1] <= len(b):
+                    return b[vals[0]:vals[1]].decode()
             raise Unrecognised("string index (a panic in the model) %r[%r]" % (base, idx))
         raise Unrecognised("index %r[%r]" % (base, idx))
 
